@@ -26,6 +26,9 @@ GENERATORS = [
     ('gen_wrappers', 'Wrappers.lean'),
     ('gen_imports', 'Imports.lean'),
     ('gen_effects', 'Effects.lean'),
+    ('gen_py_inputs', 'PyInputs.lean'),
+    ('gen_py_strings', 'PyStrings.lean'),
+    ('gen_py_loops', 'PyLoops.lean'),
 ]
 
 
